@@ -84,6 +84,14 @@ func dBasic(monoidInt bool) []dty {
 }
 
 func dCompose(t *rapid.T, depth int, classes []string, base []dty, nested []dty) dty {
+	return dComposeEx(t, depth, classes, base, nested, nil, false)
+}
+
+// dComposeEx: ex switches the extra constructors on (inline struct types, hand-written generic types with
+// instance functions); wrapped = the type is an element of another type (then an inline struct may only have
+// exported fields: gombok accepts private fields of an unnamed struct only directly in a field of a struct
+// of the working package).
+func dComposeEx(t *rapid.T, depth int, classes []string, base []dty, nested []dty, ex *dextras, wrapped bool) dty {
 	ok := func(d dty) bool {
 		for _, c := range classes {
 			if !d.caps.has(c) {
@@ -109,12 +117,30 @@ func dCompose(t *rapid.T, depth int, classes []string, base []dty, nested []dty)
 	if depth <= 0 {
 		return rapid.SampledFrom(cands).Draw(t, "leaf")
 	}
-	elemOf := func() dty { return dCompose(t, depth-1, classes, base, nested) }
-	kind := rapid.SampledFrom([]string{"leaf", "leaf", "option", "seq", "slice", "ptr", "gomap", "fpmap", "tuple2"}).Draw(t, "dkind")
+	elemOf := func() dty { return dComposeEx(t, depth-1, classes, base, nested, ex, true) }
+	kinds := []string{"leaf", "leaf", "option", "seq", "slice", "ptr", "gomap", "fpmap", "tuple2"}
+	if ex != nil {
+		if ex.inline {
+			kinds = append(kinds, "inline", "inline")
+		}
+		if ex.box {
+			kinds = append(kinds, "box", "box")
+		}
+		if ex.pair {
+			kinds = append(kinds, "pair")
+		}
+	}
+	kind := rapid.SampledFrom(kinds).Draw(t, "dkind")
 	var r dty
 	switch kind {
 	case "leaf":
 		return rapid.SampledFrom(cands).Draw(t, "leaf")
+	case "inline":
+		r = dInline(t, classes, base, wrapped || hasClass(classes, "Show"))
+	case "box":
+		r = mkBox(elemOf())
+	case "pair":
+		r = mkPair(rapid.SampledFrom([]string{"int", "string"}).Draw(t, "pairKey"), elemOf())
 	case "option":
 		e := elemOf()
 		r = dty{expr: "fp.Option[" + e.expr + "]", kind: "option", caps: e.caps, imports: e.imports, lit: func(t *rapid.T) string {
@@ -169,14 +195,38 @@ func dCompose(t *rapid.T, depth int, classes []string, base []dty, nested []dty)
 	case "gomap":
 		e := elemOf()
 		c := caps{eq: e.caps.eq, clone: e.caps.clone, show: e.caps.show, monoid: true}
+		var lastKeys, lastVals []string // the previous literal of this field: the next one may be its near-copy
 		r = dty{expr: "map[string]" + e.expr, kind: "map", caps: c, imports: e.imports, lit: func(t *rapid.T) string {
+			if len(lastKeys) > 0 && rapid.Bool().Draw(t, "renameOneKey") {
+				// same size, same values, one key renamed: equal sizes, different key sets
+				j := rapid.IntRange(0, len(lastKeys)-1).Draw(t, "renamed")
+				var xs []string
+				for i := range lastKeys {
+					k := lastKeys[i]
+					if i == j {
+						k = "r" + k
+					}
+					xs = append(xs, fmt.Sprintf("%q: %s", k, lastVals[i]))
+				}
+				return "map[string]" + e.expr + "{" + strings.Join(xs, ", ") + "}"
+			}
 			n := rapid.IntRange(0, 2).Draw(t, "n")
 			if n == 0 {
+				lastKeys, lastVals = nil, nil
 				return rapid.SampledFrom([]string{"nil", "map[string]" + e.expr + "{}"}).Draw(t, "emptymap")
 			}
+			lastKeys, lastVals = nil, nil
 			var xs []string
 			for i := 0; i < n; i++ {
-				xs = append(xs, fmt.Sprintf("%q: %s", rapid.SampledFrom([]string{"k0", "k1", "k2"}).Draw(t, "key")+strconv.Itoa(i), e.lit(t)))
+				// a third of the entries hold the zero value of the element type: a lookup of a key the other
+				// map lacks also yields that zero value (the comma-ok result is what tells them apart)
+				v := e.lit(t)
+				if rapid.IntRange(0, 2).Draw(t, "zeroValue") == 0 {
+					v = "*new(" + e.expr + ")"
+				}
+				key := rapid.SampledFrom([]string{"k0", "k1", "k2"}).Draw(t, "key") + strconv.Itoa(i)
+				lastKeys, lastVals = append(lastKeys, key), append(lastVals, v)
+				xs = append(xs, fmt.Sprintf("%q: %s", key, v))
 			}
 			return "map[string]" + e.expr + "{" + strings.Join(xs, ", ") + "}"
 		}}
@@ -203,6 +253,577 @@ func dCompose(t *rapid.T, depth int, classes []string, base []dty, nested []dty)
 	return r
 }
 
+// ---- extra shapes: inline struct types, hand-written generic types with instance functions, named
+// non-struct types, instances imported from a second package ------------------------------------------
+
+func hasClass(classes []string, c string) bool {
+	for _, x := range classes {
+		if x == c {
+			return true
+		}
+	}
+	return false
+}
+
+// ExcludeShape lists grammar shapes that are switched off (VERIF_C08_SHAPES=+name,-name switches a shape
+// off / on). Shapes: wide, inline, labelled, given-func, named, import-given, clone-named-container, wide-ord.
+//
+// clone-named-container is OFF by default (suspected defect, reported, not decided): Clone derived for a
+// struct with a field of a named slice/map type (`type Names []string`) that has no Clone instance of its
+// own resolves to the catch-all clone.Given[Names]() - a shallow copy sharing the array / map.
+//
+// wide-ord is OFF by default (reported, not decided): the Ord instances of the ord package nest
+// ord.New(eq, less), whose Compare evaluates Eqv first and Less afterwards, both of which recurse into the
+// instance of the remaining fields: Less / Compare / Eqv of a derived Ord take time exponential in the
+// number of leading fields two values agree on (22 int fields, first 18 equal: 1 s per call, doubling with
+// every further field), so the law test of a 22-25 field struct does not finish.
+var ExcludeShape = map[string]bool{"clone-named-container": true, "wide-ord": true}
+
+func init() {
+	for _, n := range strings.Split(os.Getenv("VERIF_C08_SHAPES"), ",") {
+		n = strings.TrimSpace(n)
+		switch {
+		case strings.HasPrefix(n, "+"):
+			ExcludeShape[n[1:]] = true
+		case strings.HasPrefix(n, "-"):
+			delete(ExcludeShape, n[1:])
+		}
+	}
+}
+
+// dimp: one typeclass instance for a basic type declared by the second scratch package pb and imported
+// with @fp.ImportGiven; neither the derive package nor (unless local != "") the working package has one.
+type dimp struct {
+	class, typ string
+	tag        string // semantics of pb's instance
+	name       string // name of pb's variable
+	local      string // semantics of an instance the working package declares as well ("" = none): it wins
+}
+
+type dextras struct {
+	inline   bool
+	box      bool                         // type Box[T any] struct{ V T; N int } + func <Class>Box[T any](fp.<Class>[T]) fp.<Class>[Box[T]]
+	pair     bool                         // type Pair[K, V any] + instance functions that take an instance for V only
+	bag      bool                         // type Bag[T any] + func EqBag[T any](fp.Eq[T], fp.Ord[T]) with @fp.ImportGiven of ord
+	handFunc bool                         // hand-written instances of named types are functions `func EqMyInt() fp.Eq[MyInt]`, not variables
+	named    map[string]map[string]string // named non-struct type -> class -> none | hand | derive | auto ("" = unavailable)
+	myIntMon string                       // sum | product: the hand-written MonoidMyInt
+	imp      []dimp
+}
+
+var dNamedTypes = []string{"MyInt", "MyStr", "Names", "Index"}
+var dNamedUnder = map[string]string{"MyInt": "int", "MyStr": "string", "Names": "[]string", "Index": "map[string]int"}
+
+// modes gombok supports for (named type, class) without / with @fp.Derive(recursive=true):
+//
+//	none   no instance, no directive: the derive package's Given / Number form applies (comparable / number types)
+//	hand   a hand-written instance in the working package (semantics observably different from the default)
+//	derive `// @fp.Derive var _ eq.Derives[fp.Eq[Names]]`: instance of the underlying type, converted
+//	auto   under recursive=true gombok derives the instance of the underlying type by itself
+//
+// Left out: Monoid of MyInt / MyStr without an instance (the lookup falls to whichever of monoid.Product /
+// monoid.Sum comes first: nothing says which is right); a named slice / map type without any instance
+// outside recursive=true (gombok emits a reference to the undeclared `EqNames()` - its way of asking for one).
+func dNamedModes(name, class string, rec bool) []string {
+	deriv := "derive"
+	if rec {
+		deriv = "auto"
+	}
+	switch name {
+	case "MyInt":
+		if class == "Monoid" {
+			if rec {
+				return []string{"hand"}
+			}
+			return []string{"hand", "derive"}
+		}
+		if rec {
+			return []string{"none", "hand"}
+		}
+		return []string{"none", "hand", "derive"}
+	case "MyStr":
+		switch class {
+		case "Eq", "Ord":
+			if rec {
+				return []string{"none", "hand"}
+			}
+			return []string{"none", "hand", "derive"}
+		case "Clone":
+			if rec {
+				return []string{"auto", "hand"}
+			}
+			return []string{"none", "hand", "derive"}
+		case "Monoid":
+			if rec {
+				return []string{"hand"}
+			}
+			return []string{"hand", "derive"}
+		}
+		return []string{"hand", deriv}
+	case "Names":
+		if class == "Clone" && !rec && !ExcludeShape["clone-named-container"] {
+			return []string{"none", "hand", "derive"}
+		}
+		return []string{"hand", deriv}
+	case "Index":
+		switch class {
+		case "Ord", "Hashable": // the derive packages have no GoMap instance
+			return []string{"hand"}
+		case "Clone":
+			if !rec && !ExcludeShape["clone-named-container"] {
+				return []string{"none", "hand", "derive"}
+			}
+		}
+		return []string{"hand", deriv}
+	}
+	return nil
+}
+
+// semantics tag of the hand-written instance (the reference library knows these tags)
+func dNamedHandTag(ex *dextras, name, class string) string {
+	switch class {
+	case "Clone":
+		return "" // a lawful Clone is an equal copy whoever wrote it
+	case "Show":
+		if name == "MyStr" {
+			return "brackets"
+		}
+		return ""
+	}
+	switch name {
+	case "MyInt":
+		switch class {
+		case "Eq", "Hashable":
+			return "mod7"
+		case "Ord":
+			return "rev"
+		case "Monoid":
+			return ex.myIntMon
+		}
+	case "MyStr", "Names":
+		if class == "Monoid" {
+			return "revconcat"
+		}
+		return "len"
+	case "Index":
+		if class == "Monoid" {
+			return "leftunion"
+		}
+		return "len"
+	}
+	return ""
+}
+
+func dNamedHandDecl(ex *dextras, name, class string) string {
+	var body string
+	lenEq := "eq.New(func(a, b " + name + ") bool { return len(a) == len(b) })"
+	switch class {
+	case "Eq":
+		body = lenEq
+		if name == "MyInt" {
+			body = "eq.New(func(a, b MyInt) bool { return a%7 == b%7 })"
+		}
+	case "Ord":
+		body = "ord.New(" + lenEq + ", func(a, b " + name + ") bool { return len(a) < len(b) })"
+		if name == "MyInt" {
+			body = "ord.New(eq.Given[MyInt](), func(a, b MyInt) bool { return a > b })"
+		}
+	case "Hashable":
+		body = "hash.New(" + lenEq + ", func(a " + name + ") uint32 { return uint32(len(a)) })"
+		if name == "MyInt" {
+			body = "hash.New(eq.New(func(a, b MyInt) bool { return a%7 == b%7 }), func(a MyInt) uint32 { return uint32(a % 7) })"
+		}
+	case "Monoid":
+		switch name {
+		case "MyInt":
+			body = "monoid.Sum[MyInt]()"
+			if ex.myIntMon == "product" {
+				body = "monoid.Product[MyInt]()"
+			}
+		case "MyStr":
+			body = "monoid.New(func() MyStr { return \"\" }, func(a, b MyStr) MyStr { return b + a })"
+		case "Names":
+			body = "monoid.New(func() Names { return nil }, func(a, b Names) Names { return append(append(Names{}, b...), a...) })"
+		case "Index":
+			body = "monoid.New(func() Index { return nil }, func(a, b Index) Index {\n\tr := Index{}\n\tfor k, v := range b {\n\t\tr[k] = v\n\t}\n\tfor k, v := range a {\n\t\tr[k] = v\n\t}\n\treturn r\n})"
+		}
+	case "Clone":
+		switch name {
+		case "MyInt", "MyStr":
+			body = "clone.New(func(a " + name + ") " + name + " { return a })"
+		case "Names":
+			body = "clone.New(func(a Names) Names { return append(Names{}, a...) })"
+		case "Index":
+			body = "clone.New(func(a Index) Index {\n\tr := Index{}\n\tfor k, v := range a {\n\t\tr[k] = v\n\t}\n\treturn r\n})"
+		}
+	case "Show":
+		switch name {
+		case "MyInt":
+			body = "show.New(func(a MyInt) string { return fmt.Sprintf(\"MyInt#%d\", int(a)) })"
+		case "MyStr":
+			body = "show.New(func(a MyStr) string { return \"<<\" + string(a) + \">>\" })"
+		case "Names":
+			body = "show.New(func(a Names) string { return \"Names\" + fmt.Sprint([]string(a)) })"
+		case "Index":
+			body = "show.New(func(a Index) string { return \"Index\" + fmt.Sprint(map[string]int(a)) })"
+		}
+	}
+	if ex.handFunc {
+		return fmt.Sprintf("// hand-written instance of the named type %s (function form)\nfunc %s%s() fp.%s[%s] {\n\treturn %s\n}\n\n", name, class, name, class, name, body)
+	}
+	return fmt.Sprintf("// hand-written instance of the named type %s\nvar %s%s = %s\n\n", name, class, name, body)
+}
+
+func dNamedLeaf(name string, c caps) dty {
+	d := dty{expr: name, kind: "named-" + name, caps: c}
+	switch name {
+	case "MyInt":
+		d.lit = func(t *rapid.T) string {
+			return "MyInt(" + strconv.Itoa(rapid.SampledFrom([]int{0, 1, 2, 3, 7, 8, 14}).Draw(t, "myint")) + ")"
+		}
+	case "MyStr":
+		d.lit = func(t *rapid.T) string {
+			return "MyStr(" + strconv.Quote(rapid.SampledFrom([]string{"", "mka", "mkb", "mkab", "mkz"}).Draw(t, "mystr")) + ")"
+		}
+	case "Names":
+		d.lit = func(t *rapid.T) string {
+			return rapid.SampledFrom([]string{"nil", "Names{}", `Names{"mka"}`, `Names{"mkb"}`, `Names{"mka", "mkb"}`, `Names{"mkb", "mka"}`}).Draw(t, "names")
+		}
+	case "Index":
+		d.lit = func(t *rapid.T) string {
+			return rapid.SampledFrom([]string{"nil", "Index{}", `Index{"k0": 1}`, `Index{"k0": 2}`, `Index{"k1": 1}`, `Index{"k0": 1, "k1": 3}`, `Index{"k1": 11, "k2": 0}`}).Draw(t, "index")
+		}
+	}
+	return d
+}
+
+func mkBox(e dty) dty {
+	return dty{expr: "Box[" + e.expr + "]", kind: "box", caps: e.caps, imports: e.imports, nested: e.nested, lit: func(t *rapid.T) string {
+		return "Box[" + e.expr + "]{V: " + e.lit(t) + ", N: " + strconv.Itoa(rapid.IntRange(0, 3).Draw(t, "boxN")) + "}"
+	}}
+}
+
+func mkPair(key string, e dty) dty {
+	c := e.caps
+	c.monoid = false // no lawful Monoid for Pair[K, V] can do without an instance for K
+	return dty{expr: "Pair[" + key + ", " + e.expr + "]", kind: "pair", caps: c, imports: e.imports, nested: e.nested, lit: func(t *rapid.T) string {
+		k := strconv.Itoa(rapid.IntRange(0, 3).Draw(t, "pairK"))
+		if key == "string" {
+			k = strconv.Quote("k" + k)
+		}
+		return "Pair[" + key + ", " + e.expr + "]{Key: " + k + ", Val: " + e.lit(t) + "}"
+	}}
+}
+
+func dBagLeafs() []dty {
+	return []dty{
+		{expr: "Bag[int]", kind: "bag", caps: caps{eq: true}, lit: func(t *rapid.T) string {
+			return "Bag[int]{Items: " + rapid.SampledFrom([]string{"nil", "[]int{1}", "[]int{1, 2}", "[]int{2, 1}", "[]int{11, 2}", "[]int{1, 12}", "[]int{1, 1, 2}", "[]int{2, 1, 1}", "[]int{2, 1, 2}"}).Draw(t, "bag") + "}"
+		}},
+		{expr: "Bag[string]", kind: "bag", caps: caps{eq: true}, lit: func(t *rapid.T) string {
+			return "Bag[string]{Items: " + rapid.SampledFrom([]string{"nil", `[]string{"mka"}`, `[]string{"mka", "mkb"}`, `[]string{"mkb", "mka"}`, `[]string{"mkb", "mka", "mka"}`, `[]string{"mka", "mkb", "mka"}`}).Draw(t, "bag") + "}"
+		}},
+	}
+}
+
+// dInline: an unnamed struct type with 1-3 fields.
+func dInline(t *rapid.T, classes []string, base []dty, exportedOnly bool) dty {
+	n := rapid.IntRange(1, 3).Draw(t, "inlineFields")
+	var fs []dfield
+	c := all
+	var imports []string
+	for i := 0; i < n; i++ {
+		ft := dComposeEx(t, rapid.IntRange(0, 1).Draw(t, "inlineDepth"), classes, base, nil, nil, true)
+		if ft.expr == "" {
+			ft = base[4]
+		}
+		name := []string{"A", "B", "C"}[i]
+		if !exportedOnly && i > 0 && rapid.Bool().Draw(t, "inlinePrivate") {
+			name = strings.ToLower(name) + "x"
+		}
+		fs = append(fs, dfield{name: name, t: ft})
+		c = c.and(ft.caps)
+		imports = append(imports, ft.imports...)
+	}
+	var decl []string
+	for _, f := range fs {
+		decl = append(decl, f.name+" "+f.t.expr)
+	}
+	expr := "struct{ " + strings.Join(decl, "; ") + " }"
+	return dty{expr: expr, kind: "inline-struct", caps: c, imports: imports, lit: func(t *rapid.T) string {
+		var parts []string
+		for _, f := range fs {
+			parts = append(parts, f.name+": "+f.t.lit(t))
+		}
+		return expr + "{" + strings.Join(parts, ", ") + "}"
+	}}
+}
+
+// drawExtras decides which helper declarations the package has. single = one-package sources only (C13).
+func drawExtras(t *rapid.T, focus string, rec bool, single bool) *dextras {
+	ex := &dextras{named: map[string]map[string]string{}}
+	on := func(shape string, oneIn int) bool {
+		if ExcludeShape[shape] {
+			return false
+		}
+		if focus == shape {
+			return true
+		}
+		return rapid.IntRange(0, oneIn-1).Draw(t, "shape-"+shape) == 0
+	}
+	ex.inline = on("inline", 4)
+	if on("given-func", 4) {
+		ex.box = focus == "given-func" || rapid.IntRange(0, 3).Draw(t, "box") > 0
+		ex.pair = rapid.Bool().Draw(t, "pair")
+		ex.bag = rapid.IntRange(0, 2).Draw(t, "bag") == 0
+		if !ex.pair && !ex.bag {
+			ex.box = true
+		}
+	}
+	if on("named", 4) {
+		ex.handFunc = rapid.Bool().Draw(t, "handFunc")
+		ex.myIntMon = rapid.SampledFrom([]string{"sum", "product"}).Draw(t, "myIntMonoid")
+		for _, n := range dNamedTypes {
+			if focus != "named" && rapid.Bool().Draw(t, "skip"+n) {
+				continue
+			}
+			m := map[string]string{}
+			for _, c := range dClasses {
+				modes := dNamedModes(n, c, rec)
+				if len(modes) > 0 {
+					m[c] = rapid.SampledFrom(modes).Draw(t, "mode"+n+c)
+				}
+			}
+			ex.named[n] = m
+		}
+	}
+	if !single && on("import-given", 5) {
+		used := map[string]bool{}
+		for _, c := range []dimp{
+			{class: "Monoid", typ: "int64", tag: "product"},
+			{class: "Monoid", typ: "int64", tag: "sum"},
+			{class: "Monoid", typ: "bool", tag: "or"},
+			{class: "Ord", typ: "bool", tag: "falsefirst"},
+			{class: "Ord", typ: "bool", tag: "truefirst"},
+			{class: "Hashable", typ: "bool", tag: "plain"},
+		} {
+			if used[c.class+c.typ] || rapid.IntRange(0, 2).Draw(t, "imp"+c.class+c.typ+c.tag) == 0 {
+				continue
+			}
+			used[c.class+c.typ] = true
+			// pb names its instance like a working package (MonoidInt64) or like a derive package (Int64)
+			c.name = c.class + strings.ToUpper(c.typ[:1]) + c.typ[1:]
+			if short := strings.ToUpper(c.typ[:1]) + c.typ[1:]; !used["name:"+short] && rapid.Bool().Draw(t, "impShortName") {
+				c.name = short
+			}
+			used["name:"+c.name] = true
+			if rapid.IntRange(0, 3).Draw(t, "impLocalOverride") == 0 {
+				c.local = map[string]string{"product": "sum", "sum": "product", "or": "and", "falsefirst": "truefirst", "truefirst": "falsefirst", "plain": "plain"}[c.tag]
+			}
+			ex.imp = append(ex.imp, c)
+		}
+		if len(ex.imp) == 0 {
+			ex.imp = append(ex.imp, dimp{class: "Monoid", typ: "int64", tag: "product", name: "MonoidInt64"})
+		}
+	}
+	return ex
+}
+
+// leaf field types the extras add (named types, Bag) and the basic types the imported instances enable
+func (ex *dextras) patchBase(base []dty) []dty {
+	for _, im := range ex.imp {
+		for i := range base {
+			if base[i].expr == im.typ && base[i].kind != "typeparam" {
+				switch im.class {
+				case "Monoid":
+					base[i].caps.monoid = true
+				case "Ord":
+					base[i].caps.ord = true
+				case "Hashable":
+					base[i].caps.hash = true
+				}
+			}
+		}
+	}
+	for _, n := range dNamedTypes {
+		m, ok := ex.named[n]
+		if !ok {
+			continue
+		}
+		c := caps{eq: m["Eq"] != "", ord: m["Ord"] != "", hash: m["Hashable"] != "", monoid: m["Monoid"] != "", clone: m["Clone"] != "", show: m["Show"] != ""}
+		base = append(base, dNamedLeaf(n, c))
+	}
+	if ex.bag {
+		base = append(base, dBagLeafs()...)
+	}
+	return base
+}
+
+// sem: "<Class>:<type>" -> semantics tag of the instance the lookup rules select, for the reference library
+func (p dpkg) sem() map[string]string {
+	m := map[string]string{}
+	ex := p.ex
+	if ex == nil {
+		return m
+	}
+	for _, c := range dClasses {
+		if ex.box {
+			m[c+":Box"] = "box"
+		}
+		if ex.pair {
+			m[c+":Pair"] = "pairval"
+		}
+	}
+	if ex.bag {
+		m["Eq:Bag"] = "bag"
+	}
+	for n, modes := range ex.named {
+		for c, mode := range modes {
+			switch mode {
+			case "hand":
+				if tag := dNamedHandTag(ex, n, c); tag != "" {
+					m[c+":"+n] = tag
+				}
+			case "derive", "auto":
+				m[c+":"+n] = "newtype"
+			}
+		}
+	}
+	for _, im := range ex.imp {
+		tag := im.tag
+		if im.local != "" {
+			tag = im.local
+		}
+		m[im.class+":"+im.typ] = tag
+	}
+	return m
+}
+
+func dImpBody(class, typ, tag string) string {
+	switch class + ":" + tag {
+	case "Monoid:product":
+		return "monoid.Product[" + typ + "]()"
+	case "Monoid:sum":
+		return "monoid.Sum[" + typ + "]()"
+	case "Monoid:or":
+		return "monoid.New(func() bool { return false }, func(a, b bool) bool { return a || b })"
+	case "Monoid:and":
+		return "monoid.New(func() bool { return true }, func(a, b bool) bool { return a && b })"
+	case "Ord:falsefirst":
+		return "ord.New(eq.Given[bool](), func(a, b bool) bool { return !a && b })"
+	case "Ord:truefirst":
+		return "ord.New(eq.Given[bool](), func(a, b bool) bool { return a && !b })"
+	}
+	return "hash.New(eq.Given[bool](), func(a bool) uint32 {\n\tif a {\n\t\treturn 1\n\t}\n\treturn 0\n})"
+}
+
+// sourcePb: the second scratch package whose instances the working package imports with @fp.ImportGiven
+func (p dpkg) sourcePb() string {
+	if p.ex == nil || len(p.ex.imp) == 0 {
+		return ""
+	}
+	var sb strings.Builder
+	sb.WriteString("package pb\n\nimport (\n\t\"github.com/csgura/fp\"\n\t\"github.com/csgura/fp/eq\"\n\t\"github.com/csgura/fp/hash\"\n\t\"github.com/csgura/fp/monoid\"\n\t\"github.com/csgura/fp/ord\"\n)\n\nvar _ fp.Unit\nvar _ = eq.Given[int]\nvar _ = hash.String\nvar _ = monoid.String\nvar _ = ord.Given[int]\n\n// Derives names this package in @fp.ImportGiven directives\ntype Derives[T any] interface{}\n\n")
+	for _, im := range p.ex.imp {
+		fmt.Fprintf(&sb, "var %s = %s\n\n", im.name, dImpBody(im.class, im.typ, im.tag))
+	}
+	return sb.String()
+}
+
+// helper declarations of the working package (types, hand-written instances, directives for named types)
+func (p dpkg) sourceExtras(uses map[string]bool) string {
+	ex := p.ex
+	if ex == nil {
+		return ""
+	}
+	mentioned := func(name string) bool {
+		for _, s := range p.structs {
+			for _, f := range s.fields {
+				if strings.Contains(f.t.expr, name) {
+					return true
+				}
+			}
+		}
+		return false
+	}
+	var sb strings.Builder
+	if len(ex.imp) > 0 {
+		seen := map[string]bool{}
+		for _, im := range ex.imp {
+			if !seen[im.class] {
+				seen[im.class] = true
+				fmt.Fprintf(&sb, "// instances of fp.%s declared by package pb take part in the lookup\n// @fp.ImportGiven\nvar _ pb.Derives[fp.%s[any]]\n\n", im.class, im.class)
+			}
+		}
+		for _, im := range ex.imp {
+			if im.local != "" {
+				fmt.Fprintf(&sb, "// local instance: wins over the imported pb.%s\nvar %s%s = %s\n\n", im.name, im.class, strings.ToUpper(im.typ[:1])+im.typ[1:], dImpBody(im.class, im.typ, im.local))
+			}
+		}
+	}
+	if ex.box && mentioned("Box[") {
+		sb.WriteString("// Box is a hand-written generic type; its instances are hand-written generic functions\ntype Box[T any] struct {\n\tV T\n\tN int\n}\n\n")
+		if uses["Eq"] {
+			sb.WriteString("func EqBox[T any](e fp.Eq[T]) fp.Eq[Box[T]] {\n\treturn eq.New(func(a, b Box[T]) bool { return e.Eqv(a.V, b.V) })\n}\n\n")
+		}
+		if uses["Ord"] {
+			sb.WriteString("func OrdBox[T any](o fp.Ord[T]) fp.Ord[Box[T]] {\n\treturn ord.New(eq.New(func(a, b Box[T]) bool { return o.Eqv(a.V, b.V) }), func(a, b Box[T]) bool { return o.Less(a.V, b.V) })\n}\n\n")
+		}
+		if uses["Hashable"] {
+			sb.WriteString("func HashableBox[T any](h fp.Hashable[T]) fp.Hashable[Box[T]] {\n\treturn hash.New(eq.New(func(a, b Box[T]) bool { return h.Eqv(a.V, b.V) }), func(a Box[T]) uint32 { return h.Hash(a.V) })\n}\n\n")
+		}
+		if uses["Monoid"] {
+			sb.WriteString("func MonoidBox[T any](m fp.Monoid[T]) fp.Monoid[Box[T]] {\n\treturn monoid.New(func() Box[T] { return Box[T]{V: m.Empty()} }, func(a, b Box[T]) Box[T] { return Box[T]{V: m.Combine(a.V, b.V), N: a.N + b.N} })\n}\n\n")
+		}
+		if uses["Clone"] {
+			sb.WriteString("func CloneBox[T any](c fp.Clone[T]) fp.Clone[Box[T]] {\n\treturn clone.New(func(a Box[T]) Box[T] { return Box[T]{V: c.Clone(a.V), N: a.N} })\n}\n\n")
+		}
+		if uses["Show"] {
+			sb.WriteString("func ShowBox[T any](s fp.Show[T]) fp.Show[Box[T]] {\n\treturn show.New(func(a Box[T]) string { return \"Box<\" + s.Show(a.V) + \">\" })\n}\n\n")
+		}
+	}
+	if ex.pair && mentioned("Pair[") {
+		sb.WriteString("// Pair: its hand-written instance functions take an instance for V only (K cannot be inferred from the arguments)\ntype Pair[K, V any] struct {\n\tKey K\n\tVal V\n}\n\n")
+		if uses["Eq"] {
+			sb.WriteString("func EqPair[K, V any](e fp.Eq[V]) fp.Eq[Pair[K, V]] {\n\treturn eq.New(func(a, b Pair[K, V]) bool { return e.Eqv(a.Val, b.Val) })\n}\n\n")
+		}
+		if uses["Ord"] {
+			sb.WriteString("func OrdPair[K, V any](o fp.Ord[V]) fp.Ord[Pair[K, V]] {\n\treturn ord.New(eq.New(func(a, b Pair[K, V]) bool { return o.Eqv(a.Val, b.Val) }), func(a, b Pair[K, V]) bool { return o.Less(a.Val, b.Val) })\n}\n\n")
+		}
+		if uses["Hashable"] {
+			sb.WriteString("func HashablePair[K, V any](h fp.Hashable[V]) fp.Hashable[Pair[K, V]] {\n\treturn hash.New(eq.New(func(a, b Pair[K, V]) bool { return h.Eqv(a.Val, b.Val) }), func(a Pair[K, V]) uint32 { return h.Hash(a.Val) })\n}\n\n")
+		}
+		if uses["Clone"] {
+			sb.WriteString("func ClonePair[K, V any](c fp.Clone[V]) fp.Clone[Pair[K, V]] {\n\treturn clone.New(func(a Pair[K, V]) Pair[K, V] { return Pair[K, V]{Key: a.Key, Val: c.Clone(a.Val)} })\n}\n\n")
+		}
+		if uses["Show"] {
+			sb.WriteString("func ShowPair[K, V any](s fp.Show[V]) fp.Show[Pair[K, V]] {\n\treturn show.New(func(a Pair[K, V]) string { return \"Pair<\" + s.Show(a.Val) + \">\" })\n}\n\n")
+		}
+	}
+	if ex.bag && mentioned("Bag[") {
+		sb.WriteString("// as documented for @fp.ImportGiven: instances of fp.Ord take part in deriving fp.Eq\n// @fp.ImportGiven\nvar _ ord.Derives[fp.Ord[any]]\n\n// Bag: equality up to the order of the items\ntype Bag[T any] struct {\n\tItems []T\n}\n\nfunc EqBag[T any](e fp.Eq[T], o fp.Ord[T]) fp.Eq[Bag[T]] {\n\treturn eq.New(func(a, b Bag[T]) bool {\n\t\treturn eq.Seq(e).Eqv(seq.Sort(fp.Seq[T](a.Items), o), seq.Sort(fp.Seq[T](b.Items), o))\n\t})\n}\n\n")
+	}
+	for _, n := range dNamedTypes {
+		modes, ok := ex.named[n]
+		if !ok || !mentioned(n) {
+			continue
+		}
+		fmt.Fprintf(&sb, "type %s %s\n\n", n, dNamedUnder[n])
+		for _, c := range dClasses {
+			if !uses[c] {
+				continue
+			}
+			switch modes[c] {
+			case "hand":
+				sb.WriteString(dNamedHandDecl(ex, n, c))
+			case "derive":
+				fmt.Fprintf(&sb, "// @fp.Derive\nvar _ %s.Derives[fp.%s[%s]]\n\n", dClassPkg[c], c, n)
+			}
+		}
+	}
+	return sb.String()
+}
+
 type dfield struct {
 	name string
 	t    dty
@@ -215,11 +836,13 @@ type dstruct struct {
 	classes   []string
 	recursive bool // self reference through a pointer field
 	plain     bool // no @fp.Value: a "legacy" struct with exported (or mixed) fields
+	labelled  bool // @fp.GenLabelled in addition to @fp.Value
+	wide      bool // 22-25 fields: beyond the tuple limit, gombok uses the HList representation
 	values    [][]string
 }
 
 type dpkg struct {
-	errVar bool
+	errVar        bool
 	structs       []dstruct
 	intEq10       bool
 	intOrdRev     bool
@@ -227,6 +850,7 @@ type dpkg struct {
 	monoidInt     bool
 	recFlag       bool // @fp.Derive(recursive=true) on the last struct only, nested ones not derived explicitly
 	excludedKnown bool
+	ex            *dextras
 }
 
 var dClasses = []string{"Eq", "Ord", "Hashable", "Monoid", "Clone", "Show"}
@@ -279,7 +903,24 @@ func substD(expr string, s dstruct) string {
 	return expr
 }
 
+func capsOK(d dty, classes []string) bool {
+	for _, c := range classes {
+		if !d.caps.has(c) {
+			return false
+		}
+	}
+	return true
+}
+
+// focuses that switch one of the extra shapes on for every package of the sub-check
+var dShapeFocus = map[string]bool{"wide": true, "inline": true, "labelled": true, "given-func": true, "named": true, "import-given": true}
+
 func drawDPkg(t *rapid.T, excl map[string]bool, focus string) dpkg {
+	return drawDPkgOpt(t, excl, focus, false)
+}
+
+// drawDPkgOpt: single = the package must not need a second scratch package (C13 takes one source file).
+func drawDPkgOpt(t *rapid.T, excl map[string]bool, focus string, single bool) dpkg {
 	var p dpkg
 	p.monoidInt = true
 	p.intEq10 = rapid.IntRange(0, 3).Draw(t, "overrideEqInt") == 0
@@ -301,6 +942,26 @@ func drawDPkg(t *rapid.T, excl map[string]bool, focus string) dpkg {
 		n = rapid.IntRange(2, 3).Draw(t, "nstructsFocus")
 		p.recFlag = false
 	}
+	if dShapeFocus[focus] {
+		n = rapid.IntRange(1, 2).Draw(t, "nstructsFocus")
+		if focus == "named" {
+			n = rapid.IntRange(1, 3).Draw(t, "nstructsNamed")
+		}
+		p.recFlag = n >= 2 && rapid.IntRange(0, 2).Draw(t, "recursiveFlagFocus") == 0
+	}
+	p.ex = drawExtras(t, focus, p.recFlag, single)
+	wideAt := -1
+	if focus == "wide" || (!ExcludeShape["wide"] && rapid.IntRange(0, 15).Draw(t, "wideStruct") == 8) {
+		wideAt = rapid.IntRange(0, n-1).Draw(t, "wideAt")
+		if ExcludeShape["wide-ord"] {
+			// no Ord in a package with a wide struct (see ExcludeShape)
+			e2 := map[string]bool{"Ord": true}
+			for k, v := range excl {
+				e2[k] = v
+			}
+			excl = e2
+		}
+	}
 	var pkgClasses []string
 	var nested []dty
 	for i := 0; i < n; i++ {
@@ -314,6 +975,23 @@ func drawDPkg(t *rapid.T, excl map[string]bool, focus string) dpkg {
 			for _, c := range perm {
 				if len(s.classes) < k && !excl[c] {
 					s.classes = append(s.classes, c)
+				}
+			}
+			// focused shapes need a typeclass that reaches them
+			force := func(c string) {
+				if !excl[c] && !hasClass(s.classes, c) {
+					s.classes[len(s.classes)-1] = c
+				}
+			}
+			switch {
+			case focus == "labelled":
+				force("Show") // the only derive package with Labelled / Named instances
+			case focus == "given-func" && p.ex.bag && rapid.IntRange(0, 2).Draw(t, "bagFocus") == 0 && !excl["Eq"]:
+				s.classes = []string{"Eq"} // EqBag is the only instance of Bag
+			case focus == "import-given":
+				im := rapid.SampledFrom(p.ex.imp).Draw(t, "impFocus")
+				if !excl[im.class] {
+					s.classes = []string{im.class}
 				}
 			}
 			sort.Strings(s.classes)
@@ -344,6 +1022,7 @@ func drawDPkg(t *rapid.T, excl map[string]bool, focus string) dpkg {
 			base = append(base, dty{expr: "«" + prm + "»", kind: "typeparam", caps: src.caps, lit: src.lit, param: prm})
 			base = append(base, dty{expr: "«" + prm + "»", kind: "typeparam", caps: src.caps, lit: src.lit, param: prm})
 		}
+		base = p.ex.patchBase(base)
 		// nested structs are only usable if they derive every class this struct derives
 		var usable []dty
 		for _, nd := range nested {
@@ -358,10 +1037,24 @@ func drawDPkg(t *rapid.T, excl map[string]bool, focus string) dpkg {
 			}
 		}
 		nf := rapid.IntRange(1, 6).Draw(t, "nfields")
+		if i == wideAt {
+			// more fields than the largest tuple (genfp.MaxProduct = 21): HList representation
+			s.wide = true
+			nf = rapid.IntRange(22, 25).Draw(t, "nfieldsWide")
+		}
 		// a plain struct (no @fp.Value) with exported or mixed-visibility fields; never the last struct
 		s.plain = len(s.params) == 0 && i < n-1 && (focus == "recursive-plain" || rapid.IntRange(0, 2).Draw(t, "plainStruct") == 0)
+		if !s.plain && !ExcludeShape["labelled"] {
+			s.labelled = focus == "labelled" || rapid.IntRange(0, 3).Draw(t, "genLabelled") == 0
+		}
 		for j := 0; j < nf; j++ {
-			ft := dCompose(t, rapid.IntRange(0, 2).Draw(t, "depth"), s.classes, base, usable)
+			ft := dComposeEx(t, rapid.IntRange(0, 2).Draw(t, "depth"), s.classes, base, usable, p.ex, false)
+			if dShapeFocus[focus] && i == n-1 && j < 2 {
+				// the struct carrying the directives uses the focused shape in its first fields
+				if f, ok := dFeatured(t, focus, p.ex, s.classes, base); ok {
+					ft = f
+				}
+			}
 			if focus == "recursive-plain" && i == n-1 && j == 0 && len(usable) > 0 {
 				// the struct carrying the directive uses a nested plain struct (directly, by pointer or in a slice)
 				nd := rapid.SampledFrom(usable).Draw(t, "nestedField")
@@ -407,7 +1100,10 @@ func drawDPkg(t *rapid.T, excl map[string]bool, focus string) dpkg {
 			if ft.expr == "" {
 				ft = base[4] // string supports everything
 			}
-			name := safeNames[j]
+			name := fmt.Sprintf("g%d", j)
+			if j < len(safeNames) {
+				name = safeNames[j]
+			}
 			if s.plain && (j == 0 || rapid.Bool().Draw(t, "exported")) {
 				name = strings.ToUpper(name[:1]) + name[1:]
 			}
@@ -505,8 +1201,109 @@ func drawDPkg(t *rapid.T, excl map[string]bool, focus string) dpkg {
 		// recorded known finding (D16): excluded by construction so that the search continues behind it
 		p.recFlag = false
 		p.excludedKnown = true
+		// without recursive=true a named type needs a directive of its own for what gombok derived by itself
+		for _, modes := range p.ex.named {
+			for c, m := range modes {
+				if m == "auto" {
+					modes[c] = "derive"
+				}
+			}
+		}
 	}
 	return p
+}
+
+// dFeatured draws a field type of the focused shape that supports the classes (ok = false: none does).
+func dFeatured(t *rapid.T, focus string, ex *dextras, classes []string, base []dty) (dty, bool) {
+	var leafs []dty
+	for _, b := range base {
+		if capsOK(b, classes) && b.kind != "typeparam" {
+			leafs = append(leafs, b)
+		}
+	}
+	if len(leafs) == 0 {
+		return dty{}, false
+	}
+	leaf := func() dty {
+		// int half of the time: the local overriding instances (EqInt, OrdInt, MonoidInt) are observable there
+		if capsOK(base[0], classes) && rapid.Bool().Draw(t, "featuredInt") {
+			return base[0]
+		}
+		return rapid.SampledFrom(leafs).Draw(t, "featuredLeaf")
+	}
+	wraps := []string{"direct", "direct", "slice", "option"}
+	if !hasClass(classes, "Monoid") {
+		wraps = append(wraps, "ptr")
+	}
+	wrap := rapid.SampledFrom(wraps).Draw(t, "featuredWrap")
+	var cands []dty
+	switch focus {
+	case "inline":
+		// inline structs below another type constructor have exported fields only
+		cands = append(cands, dInline(t, classes, base, wrap != "direct" || hasClass(classes, "Show")))
+	case "given-func":
+		if ex.box {
+			cands = append(cands, mkBox(leaf()))
+		}
+		if ex.pair {
+			cands = append(cands, mkPair(rapid.SampledFrom([]string{"int", "string"}).Draw(t, "pairKey"), leaf()))
+		}
+		if ex.bag {
+			cands = append(cands, dBagLeafs()...)
+		}
+	case "named":
+		for _, b := range leafs {
+			if strings.HasPrefix(b.kind, "named-") {
+				cands = append(cands, b)
+			}
+		}
+	case "import-given":
+		for _, b := range leafs {
+			for _, im := range ex.imp {
+				if b.expr == im.typ && hasClass(classes, im.class) {
+					cands = append(cands, b)
+				}
+			}
+		}
+	}
+	var okc []dty
+	for _, c := range cands {
+		if capsOK(c, classes) {
+			okc = append(okc, c)
+		}
+	}
+	if len(okc) == 0 {
+		return dty{}, false
+	}
+	e := rapid.SampledFrom(okc).Draw(t, "featured")
+	switch wrap {
+	case "slice":
+		c := e.caps
+		c.monoid = true
+		return dty{expr: "[]" + e.expr, kind: "slice", caps: c, imports: e.imports, nested: e.nested, lit: func(t *rapid.T) string {
+			n := rapid.IntRange(0, 2).Draw(t, "n")
+			var xs []string
+			for i := 0; i < n; i++ {
+				xs = append(xs, e.lit(t))
+			}
+			return "[]" + e.expr + "{" + strings.Join(xs, ", ") + "}"
+		}}, true
+	case "option":
+		return dty{expr: "fp.Option[" + e.expr + "]", kind: "option", caps: e.caps, imports: e.imports, nested: e.nested, lit: func(t *rapid.T) string {
+			if rapid.IntRange(0, 2).Draw(t, "none") == 0 {
+				return "option.None[" + e.expr + "]()"
+			}
+			return "option.Some[" + e.expr + "](" + e.lit(t) + ")"
+		}}, true
+	case "ptr":
+		return dty{expr: "*" + e.expr, kind: "pointer", caps: e.caps, imports: e.imports, nested: e.nested, lit: func(t *rapid.T) string {
+			if rapid.IntRange(0, 2).Draw(t, "nil") == 0 {
+				return "nil"
+			}
+			return "ptrOf[" + e.expr + "](" + e.lit(t) + ")"
+		}}, true
+	}
+	return e, true
 }
 
 // knownRecursiveMonoidShape: @fp.Derive(recursive=true) of Monoid over a field of a generic named
@@ -537,8 +1334,9 @@ func (p dpkg) source() string {
 
 import (
 	"errors"
+	"fmt"
 	"time"
-
+PBIMPORT
 	"github.com/csgura/fp"
 	"github.com/csgura/fp/clone"
 	"github.com/csgura/fp/eq"
@@ -546,10 +1344,13 @@ import (
 	"github.com/csgura/fp/monoid"
 	"github.com/csgura/fp/option"
 	"github.com/csgura/fp/ord"
+	"github.com/csgura/fp/seq"
 	"github.com/csgura/fp/show"
 )
 
 var _ = errors.New
+var _ = fmt.Sprint
+var _ = seq.Of[int]
 var _ = time.Second
 var _ fp.Unit
 var _ = option.None[int]
@@ -572,6 +1373,17 @@ func ptrOf[T any](v T) *T { return &v }
 			uses[c] = true
 		}
 	}
+	bagUsed := false
+	for _, s := range p.structs {
+		for _, f := range s.fields {
+			if strings.Contains(f.t.expr, "Bag[") {
+				bagUsed = true
+			}
+		}
+	}
+	if bagUsed {
+		uses["Ord"] = true // EqBag needs an fp.Ord of the item type
+	}
 	if p.intEq10 && uses["Eq"] {
 		sb.WriteString("// local instance: overrides eq.Given[int] for fields of type int\nvar EqInt = eq.New(func(a, b int) bool { return a%10 == b%10 })\n\n")
 	}
@@ -585,9 +1397,12 @@ func ptrOf[T any](v T) *T { return &v }
 			sb.WriteString("var MonoidInt = monoid.Sum[int]()\n\n")
 		}
 	}
+	sb.WriteString(p.sourceExtras(uses))
 	for _, s := range p.structs {
 		if s.plain {
 			fmt.Fprintf(&sb, "// %s is a plain struct without @fp.Value\ntype %s%s struct {\n", s.name, s.name, s.declParams())
+		} else if s.labelled {
+			fmt.Fprintf(&sb, "// @fp.Value\n// @fp.GenLabelled\ntype %s%s struct {\n", s.name, s.declParams())
 		} else {
 			fmt.Fprintf(&sb, "// @fp.Value\ntype %s%s struct {\n", s.name, s.declParams())
 		}
@@ -610,7 +1425,11 @@ func ptrOf[T any](v T) *T { return &v }
 			fmt.Fprintf(&sb, "// @fp.Derive\nvar _ %s.Derives[fp.%s[%s]]\n\n", dClassPkg[c], c, s.anyExpr())
 		}
 	}
-	return sb.String()
+	pbImport := ""
+	if p.sourcePb() != "" {
+		pbImport = "\n\t\"scratch/pb\"\n"
+	}
+	return strings.Replace(sb.String(), "PBIMPORT", pbImport, 1)
 }
 
 func (p dpkg) ovEq() bool {
@@ -685,7 +1504,17 @@ func mustInst(name string, fn any) (any, int) {
 	out := strings.NewReplacer("REG_EQ_INT", regEq, "REG_ORD_INT", regOrd, "REG_MONOID_INT", regMon).Replace(sb.String())
 	sb.Reset()
 	sb.WriteString(out)
-	fmt.Fprintf(&sb, "var dOverrides = dOverride{IntEqMod10: %v, IntOrdReversed: %v, IntProduct: %v}\n\n", p.intEq10, p.intOrdRev, p.intProd)
+	sem := p.sem()
+	var semKeys []string
+	for k := range sem {
+		semKeys = append(semKeys, k)
+	}
+	sort.Strings(semKeys)
+	var semLit []string
+	for _, k := range semKeys {
+		semLit = append(semLit, fmt.Sprintf("%q: %q", k, sem[k]))
+	}
+	fmt.Fprintf(&sb, "var dOverrides = dOverride{IntEqMod10: %v, IntOrdReversed: %v, IntProduct: %v, Sem: map[string]string{%s}}\n\n", p.intEq10, p.intOrdRev, p.intProd, strings.Join(semLit, ", "))
 	sb.WriteString("var dCases = func() []dCase {\n\tvar cs []dCase\n")
 	for si, s := range p.structs {
 		if p.recFlag && si != len(p.structs)-1 {
@@ -724,14 +1553,95 @@ func mustInst(name string, fn any) (any, int) {
 func (p dpkg) describe() string {
 	var sb strings.Builder
 	fmt.Fprintf(&sb, "overrides(EqInt mod10=%v, OrdInt reversed=%v, MonoidInt product=%v) recursive=true on last struct only: %v; package-level error var: %v\n", p.intEq10, p.intOrdRev, p.intProd, p.recFlag, p.errVar)
+	if ex := p.ex; ex != nil {
+		var names []string
+		for _, n := range dNamedTypes {
+			if m, ok := ex.named[n]; ok {
+				var ms []string
+				for _, c := range dClasses {
+					if m[c] != "" {
+						ms = append(ms, c+"="+m[c])
+					}
+				}
+				names = append(names, n+"("+strings.Join(ms, ",")+")")
+			}
+		}
+		var imps []string
+		for _, im := range ex.imp {
+			imps = append(imps, fmt.Sprintf("pb.%s=%s[%s]:%s local=%q", im.name, im.class, im.typ, im.tag, im.local))
+		}
+		fmt.Fprintf(&sb, "extras: inline=%v Box=%v Pair=%v Bag=%v named=%v handFunc=%v MonoidMyInt=%s imported=%v\n", ex.inline, ex.box, ex.pair, ex.bag, names, ex.handFunc, ex.myIntMon, imps)
+	}
 	for _, s := range p.structs {
-		fmt.Fprintf(&sb, "%s%s plain=%v derive%v {", s.name, s.declParams(), s.plain, s.classes)
+		fmt.Fprintf(&sb, "%s%s plain=%v labelled=%v derive%v {", s.name, s.declParams(), s.plain, s.labelled, s.classes)
 		for _, f := range s.fields {
 			fmt.Fprintf(&sb, "%s %s; ", f.name, f.t.expr)
 		}
 		fmt.Fprintf(&sb, "} values=%v\n", s.values)
 	}
 	return sb.String()
+}
+
+// shapeLabels: which of the extra shapes the struct has
+func (s dstruct) shapeLabels() []string {
+	var ls []string
+	if s.wide {
+		ls = append(ls, "shape:wide")
+	}
+	if s.labelled {
+		ls = append(ls, "shape:labelled")
+	}
+	seen := map[string]bool{}
+	for _, f := range s.fields {
+		for frag, l := range map[string]string{"struct{": "shape:inline-struct", "Box[": "shape:given-func-Box", "Pair[": "shape:given-func-Pair", "Bag[": "shape:given-func-Bag",
+			"MyInt": "shape:named-MyInt", "MyStr": "shape:named-MyStr", "Names": "shape:named-Names", "Index": "shape:named-Index"} {
+			if strings.Contains(f.t.expr, frag) && !seen[l] {
+				seen[l] = true
+				ls = append(ls, l)
+			}
+		}
+	}
+	sort.Strings(ls)
+	return ls
+}
+
+// modeLabels: how the instances of the used named types / imported instances are provided
+func (p dpkg) modeLabels() []string {
+	var ls []string
+	if p.ex == nil {
+		return nil
+	}
+	used := func(name, class string) bool {
+		for _, s := range p.structs {
+			if !hasClass(s.classes, class) {
+				continue
+			}
+			for _, f := range s.fields {
+				if strings.Contains(f.t.expr, name) {
+					return true
+				}
+			}
+		}
+		return false
+	}
+	for _, n := range dNamedTypes {
+		for _, c := range dClasses {
+			if m := p.ex.named[n][c]; m != "" && used(n, c) {
+				ls = append(ls, "named-mode:"+m)
+			}
+		}
+	}
+	for _, im := range p.ex.imp {
+		if used(im.typ, im.class) {
+			l := "imported:" + im.class + "[" + im.typ + "]"
+			if im.local != "" {
+				l += "+local"
+			}
+			ls = append(ls, l)
+		}
+	}
+	sort.Strings(ls)
+	return ls
 }
 
 // ExcludeDerive lists typeclasses removed from the generator (recorded known findings).
@@ -745,6 +1655,8 @@ func init() {
 	}
 }
 
+var dumpMark = func(string) {}
+
 func runDerivePackage(p dpkg) (fails []outcome, stage string) {
 	m, err := scratch.NewModule()
 	if err != nil {
@@ -752,7 +1664,29 @@ func runDerivePackage(p dpkg) (fails []outcome, stage string) {
 	}
 	defer m.Remove()
 	_ = m.WriteFile("pa/types.go", p.source())
+	if pb := p.sourcePb(); pb != "" {
+		_ = m.WriteFile("pb/inst.go", pb)
+	}
+	if d := os.Getenv("VERIF_C08_DUMP"); d != "" {
+		// debugging aid: keep the sources and the duration of each stage of every package
+		t0 := time.Now()
+		marks := []string{}
+		mark := func(stage string) { marks = append(marks, fmt.Sprintf("%s=%.1fs", stage, time.Since(t0).Seconds())) }
+		defer func() {
+			mark("end:" + stage)
+			dir := fmt.Sprintf("%s/%d-%s", d, os.Getpid(), strings.TrimPrefix(m.Dir[strings.LastIndex(m.Dir, "/")+1:], "m"))
+			_ = os.MkdirAll(dir, 0o755)
+			_ = os.WriteFile(dir+"/types.go", []byte(p.source()), 0o644)
+			_ = os.WriteFile(dir+"/inst_pb.go", []byte(p.sourcePb()), 0o644)
+			_ = os.WriteFile(dir+"/derive_generated.go", []byte(m.ReadFile("pa/pa_derive_generated.go")), 0o644)
+			_ = os.WriteFile(dir+"/cases.go", []byte(p.cases()), 0o644)
+			_ = os.WriteFile(dir+"/info.txt", []byte(strings.Join(marks, " ")+"\n"+fmt.Sprint(fails)+"\n"+p.describe()), 0o644)
+		}()
+		dumpMark = mark
+		defer func() { dumpMark = func(string) {} }()
+	}
 	g := m.RunGombok("pa", "pa")
+	dumpMark("gombok")
 	if g.TimedOut {
 		return []outcome{{"gombok|timeout", "gombok did not finish within 120 s"}}, "gombok"
 	}
@@ -776,14 +1710,24 @@ func runDerivePackage(p dpkg) (fails []outcome, stage string) {
 		}
 		return []outcome{{"gombok-failed|" + scratch.ErrorClass(first), "gombok exit " + fmt.Sprint(g.ExitCode) + ": " + clip(g.Out, 1500)}}, "gombok"
 	}
-	if r := m.Go(180*time.Second, "build", "./pa"); r.ExitCode != 0 {
+	// The package is compiled once, together with the law test (`go test`). Only if that does not build, the
+	// package is built on its own to tell generated code that does not compile from a broken law test.
+	buildFailure := func() []outcome {
+		r := m.Go(180*time.Second, "build", "./pa")
+		if r.ExitCode == 0 {
+			return nil
+		}
+		if scratch.ToolchainTrouble(r.Out) {
+			return []outcome{{"infra|toolchain-trouble", clip(r.Out, 600)}}
+		}
 		fe := scratch.FirstError(r.Out)
-		return []outcome{{"compile|" + scratch.ErrorClass(stripPos(fe)), "generated code does not compile: " + clip(r.Out, 1500) + "\n--- derive file:\n" + clip(m.ReadFile("pa/pa_derive_generated.go"), 2500)}}, "compile"
+		return []outcome{{"compile|" + scratch.ErrorClass(stripPos(fe)), "generated code does not compile: " + clip(r.Out, 1500) + "\n--- derive file:\n" + clip(m.ReadFile("pa/pa_derive_generated.go"), 2500)}}
 	}
 	law := strings.Replace(scratch.DeriveLib, "package PKGNAME", "package pa", 1)
 	_ = m.WriteFile("pa/zz_derive_test.go", law)
 	_ = m.WriteFile("pa/zz_dcases_test.go", p.cases())
 	r := m.Go(300*time.Second, "test", "-count=1", "-vet=off", "-v", "./pa")
+	dumpMark("test")
 	if r.TimedOut {
 		return []outcome{{"law|timeout", "law test did not finish"}}, "law"
 	}
@@ -799,6 +1743,12 @@ func runDerivePackage(p dpkg) (fails []outcome, stage string) {
 	}
 	if len(fails) == 0 && r.ExitCode != 0 {
 		if strings.Contains(r.Out, "[build failed]") || strings.Contains(r.Out, "[setup failed]") {
+			if bf := buildFailure(); bf != nil {
+				if strings.HasPrefix(bf[0].sig, "infra") {
+					return bf, "infra"
+				}
+				return bf, "compile"
+			}
 			return []outcome{{"infra|law-test-does-not-compile", clip(r.Out, 2500) + "\n--- derive file:\n" + clip(m.ReadFile("pa/pa_derive_generated.go"), 2500)}}, "infra"
 		}
 		return []outcome{{"law|crash", clip(r.Out, 2000)}}, "law"
@@ -809,11 +1759,11 @@ func runDerivePackage(p dpkg) (fails []outcome, stage string) {
 	return fails, "law"
 }
 
-const ruleC08 = "package spec drawn from a grammar: 1-3 @fp.Value structs (0-2 type parameters, optional recursion through a pointer, nesting of earlier derived structs, generic ones at the instantiation D[int, string]), 1-7 fields over the kinds each typeclass package supports (ints, float64, string, bool, []byte, time.Time, Option, fp.Seq, slice, pointer, Go map, fp.Map, Tuple2, nested struct, type parameter), 1-3 @fp.Derive directives per struct out of Eq/Ord/Hashable/Monoid/Clone/Show, optional local overriding instances (EqInt = equality mod 10, OrdInt = descending, MonoidInt = Sum or Product); 5 values per struct (random, one field changed, a suffix changed, random, copy). Pipeline: gombok from the tree under test -> go build -> reflective law test with reference semantics (conjunction / lexicographic / field-wise / deep copy). Non-trivial iff a struct is nested, generic or recursive; distinct by rendered spec"
+const ruleC08 = "package spec drawn from a grammar: 1-3 @fp.Value structs (0-2 type parameters, optional recursion through a pointer, nesting of earlier derived structs, generic ones at the instantiation D[int, string]; optionally @fp.GenLabelled; optionally plain structs), 1-7 fields - or 22-25, beyond the tuple limit - over the kinds each typeclass package supports (ints, float64, string, bool, []byte, time.Time, Option, fp.Seq, slice, pointer, Go map, fp.Map, Tuple2, nested struct, type parameter, unnamed struct types, hand-written generic types Box[T] / Pair[K, V] / Bag[T] whose instances are hand-written generic functions, named non-struct types MyInt / MyStr / Names / Index with no, a hand-written or a derived instance, basic types whose only instance a second package pb declares and @fp.ImportGiven imports), 1-3 @fp.Derive directives per struct out of Eq/Ord/Hashable/Monoid/Clone/Show, optional local overriding instances (EqInt = equality mod 10, OrdInt = descending, MonoidInt = Sum or Product; hand-written instances are made observably different from the structural default); 5 values per struct (random, one field changed, a suffix changed, random, copy). Pipeline: gombok from the tree under test -> go test of the package with a reflective law test (reference semantics: conjunction / lexicographic / field-wise / deep copy, with the instance the lookup rules select for each field type); generated code that does not compile is told from a broken law test by building the package alone. Non-trivial iff a struct is nested, generic, recursive or uses one of the extra shapes; distinct by rendered spec"
 
 // DrawDeriveSource draws a package from the C08 grammar (source text of pa/types.go) for C13.
 func DrawDeriveSource(rt *rapid.T) (src string, labels []string) {
-	p := drawDPkg(rt, ExcludeDerive, "")
+	p := drawDPkgOpt(rt, ExcludeDerive, "", true)
 	seen := map[string]bool{}
 	add := func(l string) {
 		if !seen[l] {
@@ -831,6 +1781,9 @@ func DrawDeriveSource(rt *rapid.T) (src string, labels []string) {
 		}
 		for _, c := range s.classes {
 			add("class:" + c)
+		}
+		for _, l := range s.shapeLabels() {
+			add(l)
 		}
 	}
 	return p.source(), labels
@@ -865,6 +1818,13 @@ func DeriveCheck(t *testing.T, name string, casesPerProcess int, focus string) {
 					nt = true
 				}
 			}
+			for _, l := range s.shapeLabels() {
+				nt = true
+				rec.Label(l)
+			}
+		}
+		for _, l := range p.modeLabels() {
+			rec.Label(l)
 		}
 		rec.Case(nt, p.describe())
 		fails, stage := runDerivePackage(p)
@@ -917,6 +1877,73 @@ func KnownD16Check(t *testing.T) {
 				}
 				rec.PlainFail(t, "C08|known-shape|monoid-recursive-named-generic|"+cls, "%s\nspec:\n%s", f.msg, p.describe())
 			}
+		}
+	})
+}
+
+// KnownCloneNamedCheck exercises the recorded known finding D17 with its fixed minimal input: the derived Clone
+// of a struct with a field of a NAMED slice / map type that has no Clone instance of its own resolves that
+// field to the catch-all clone.Given (identity), so the clone shares the slice's array and the map. The shape
+// is switched off in the random grammar (ExcludeShape "clone-named-container", counted as excluded).
+func KnownCloneNamedCheck(t *testing.T) {
+	kit.Plain(t, "derive/known-shape/clone-named-container", "fixed input: type Names []string; type Index map[string]int; @fp.Value struct{names Names; index Index}; @fp.Derive clone.Derives[fp.Clone[T]]; the clone is written through and the original inspected", func(t *testing.T, rec *kit.Rec) {
+		rec.Case(true, "T{names Names; index Index}")
+		m, err := scratch.NewModule()
+		if err != nil {
+			rec.PlainFail(t, "HARNESS|infra", "%v", err)
+		}
+		defer m.Remove()
+		_ = m.WriteFile("pa/types.go", `package pa
+
+import (
+	"github.com/csgura/fp"
+	"github.com/csgura/fp/clone"
+)
+
+type Names []string
+type Index map[string]int
+
+// @fp.Value
+type T struct {
+	names Names
+	index Index
+}
+
+// @fp.Derive
+var _ clone.Derives[fp.Clone[T]]
+`)
+		_ = m.WriteFile("pa/zz_known_test.go", `package pa
+
+import "testing"
+
+func TestKnownShape(t *testing.T) {
+	a := T{names: Names{"x", "y"}, index: Index{"k": 1}}
+	b := CloneT().Clone(a)
+	b.names[0] = "changed"
+	b.index["k"] = 2
+	if a.names[0] != "x" {
+		t.Errorf("SHARED-STORAGE names: writing to the clone changed the original to %v", a.names)
+	}
+	if a.index["k"] != 1 {
+		t.Errorf("SHARED-STORAGE index: writing to the clone changed the original to %v", a.index)
+	}
+}
+`)
+		g := m.RunGombok("pa", "pa")
+		if scratch.ToolchainTrouble(g.Out) {
+			rec.PlainFail(t, "HARNESS|infra|toolchain-trouble", "%s", clip(g.Out, 400))
+		}
+		if g.ExitCode != 0 || strings.Contains(g.Out, "panic:") {
+			rec.PlainFail(t, "C08|known-shape|clone-named-container|gombok", "gombok failed: %s", clip(g.Out, 800))
+		}
+		r := m.Go(300*time.Second, "test", "-count=1", "-vet=off", "./pa")
+		switch {
+		case scratch.ToolchainTrouble(r.Out) || r.TimedOut:
+			rec.PlainFail(t, "HARNESS|infra|toolchain-trouble", "%s", clip(r.Out, 400))
+		case strings.Contains(r.Out, "SHARED-STORAGE"):
+			rec.PlainFail(t, "C08|known-shape|clone-named-container|law", "%s\n--- derive file:\n%s", clip(r.Out, 800), clip(m.ReadFile("pa/pa_derive_generated.go"), 800))
+		case r.ExitCode != 0:
+			rec.PlainFail(t, "C08|known-shape|clone-named-container|compile", "%s", clip(r.Out, 1200))
 		}
 	})
 }
